@@ -107,6 +107,7 @@ func vCut()               { panic(vStop{"VERIF-CUT"}) }
 func vMapOrder(on bool)   {}
 func vSchedExplore(maxDeviations int) {}
 func vNumCPU(n int)       {}
+func vAllowCrash(on bool) {}
 func vNote(s string)      {}
 func vObserve(tag string, v ...interface{}) {
 	s := tag + "="
@@ -263,6 +264,10 @@ func init() {
 			n := int(ip.concInt(a[0]))
 			ip.scheduler().explore = n > 0
 			ip.scheduler().maxDev = n
+			return nil
+		},
+		"vAllowCrash": func(ip *Interp, fn *ssa.Function, a []Value) Value {
+			ip.allowCrash = a[0].(*Term).C == 1
 			return nil
 		},
 		"vNumCPU": func(ip *Interp, fn *ssa.Function, a []Value) Value {
